@@ -377,11 +377,18 @@ func genC16() {
 		var defaults []int64
 		var mask int64 = -1
 		var trailerLit []string
+		var dirTrim []string
 		ast.Inspect(fd, func(n ast.Node) bool {
 			switch x := n.(type) {
 			case *ast.CallExpr:
 				if f, _, ok := sprintfCall(x); ok {
 					fmts = append(fmts, f)
+				}
+				// the strings.Trim* call applied to the header's Name (the spelling of a directory on its F: line)
+				if fn := exprText(x.Fun); strings.HasPrefix(fn, "strings.Trim") && len(x.Args) >= 1 {
+					if se, ok := x.Args[0].(*ast.SelectorExpr); ok && se.Sel.Name == "Name" {
+						dirTrim = append(dirTrim, fn)
+					}
 				}
 				if exprText(x.Fun) == "strings.Join" && len(x.Args) == 2 {
 					if s, ok := strLit(x.Args[1]); ok {
@@ -421,6 +428,11 @@ func genC16() {
 		g.def("installed_dir_default_mode", "Z", fmt.Sprintf("%d%%Z", defaults[0]), "directories: M: line written unless perm is this and uid = gid = 0")
 		g.def("installed_file_default_mode", "Z", fmt.Sprintf("%d%%Z", defaults[1]), "files: a: line written unless perm is this and uid = gid = 0")
 		g.def("installed_join_and_trailer", "list string", coqStrList(trailerLit), "line separator and record trailer of AddInstalledPackage")
+		if len(dirTrim) != 1 || (dirTrim[0] != "strings.TrimRight" && dirTrim[0] != "strings.TrimSuffix") {
+			fail("%s: AddInstalledPackage: expected one strings.TrimRight / strings.TrimSuffix call on the header's Name, found %v", inst, dirTrim)
+			dirTrim = []string{"strings.TrimRight"}
+		}
+		g.def("installed_dir_trim_fn", "string", coqStr(dirTrim[0]), "how AddInstalledPackage removes the trailing separator(s) of a directory's name: strings.TrimRight (all of them) or strings.TrimSuffix (one)")
 	}
 
 	// ---- 3b. C15: the guard in front of groupByOriginAndSize -----------------
